@@ -1,4 +1,5 @@
 import ParryModel.C18.LemmasGrid
+import ParryModel.C18.LemmasSet
 import ParryModel.C18.Theorems3
 import ParryModel.C18.Theorems2
 import Mathlib.Analysis.Real.Sqrt
@@ -243,6 +244,66 @@ theorem vox_fuel_ok (cfg : Cfg) (hsi : cfg.detectSelfInter = false) (res : Nat) 
     (edges : List (Nat × Nat)) (hp : (voxelize cfg res (p0 :: ps) edges).1.panic = false) :
     (voxelize cfg res (p0 :: ps) edges).2 = true :=
   (voxelize_plain cfg hsi res hres p0 ps edges hp).2.1
+
+/-- **vox_set_voxels** (`detect_self_intersections = false`, no panic): the voxel list of `VoxelSet::voxelize` is the list of
+the inside and surface cells of the volume in scan order (`i` outer, `j` inner), `is_on_surface` being set exactly on the
+surface cells (`classify`); outside / undefined cells are dropped.  (Holds for every volume: `toVoxelSet_voxels`.) -/
+theorem vox_set_voxels (cfg : Cfg) (res : Nat) (pts : List (V2 K)) (edges : List (Nat × Nat)) :
+    (toVoxelSet (voxelize cfg res pts edges).1).1.toList.map (fun w => ((w.i, w.j), w.surf))
+      = (cellsIn 0 0 (voxelize cfg res pts edges).1.ni (voxelize cfg res pts edges).1.nj).filterMap
+          (classify (voxelize cfg res pts edges).1.ni (voxelize cfg res pts edges).1.vals) :=
+  toVoxelSet_voxels _
+
+/-- **vox_set_map_exact** (`detect_self_intersections = false`, every `FillMode`, `keep_voxel_to_primitives_map`, no
+panic, map not empty).  For every surface voxel `w` of `VoxelSet::voxelize(..)`, the slice
+`intersections[w.intersections_range]` produced by the counting sort of `From<VoxelizedVolume>` is **exactly** the
+increasing list of the primitive indices `k` whose segment has the cell of `w` in its candidate range with a positive
+`intersection_test_aabb_segment` (`hitB`) — no primitive missing, none extra, none repeated. -/
+theorem vox_set_map_exact (cfg : Cfg) (hsi : cfg.detectSelfInter = false) (hkeep : cfg.keepMap = true) (res : Nat) (hres : 1 ≤ res)
+    (p0 : V2 K) (ps : List (V2 K)) (edges : List (Nat × Nat))
+    (hp : (voxelize cfg res (p0 :: ps) edges).1.panic = false)
+    (hne : (voxelize cfg res (p0 :: ps) edges).1.prims.isEmpty = false) :
+    ∀ w ∈ (toVoxelSet (voxelize cfg res (p0 :: ps) edges).1).1.toList, w.surf = true →
+      voxelPrims (toVoxelSet (voxelize cfg res (p0 :: ps) edges).1).2 w =
+        (edges.zipIdx.filter (fun ek => hitB (p0 :: ps).toArray (cloudAabb p0 ps).1
+          (gridParams res (cloudAabb p0 ps).1 (cloudAabb p0 ps).2).2.2.2
+          (voxelize cfg res (p0 :: ps) edges).1.ni (voxelize cfg res (p0 :: ps) edges).1.nj ek (w.i, w.j))).map (·.2) := by
+  obtain ⟨v1, v2, v3, v4, v5, v6, v7, v8⟩ := voxelize_plain cfg hsi res hres p0 ps edges hp
+  have hm := markAll_eq cfg res p0 ps edges
+  have hinv := markFrom_inv cfg hsi (p0 :: ps).toArray edges (cloudAabb p0 ps).1
+    (gridParams res (cloudAabb p0 ps).1 (cloudAabb p0 ps).2).2.2.1 (gridParams res (cloudAabb p0 ps).1 (cloudAabb p0 ps).2).2.2.2
+    (gridParams res (cloudAabb p0 ps).1 (cloudAabb p0 ps).2).1 (gridParams res (cloudAabb p0 ps).1 (cloudAabb p0 ps).2).2.1
+  rw [← hm] at hinv
+  obtain ⟨_, _, hg, hn⟩ := hinv
+  set V := (voxelize cfg res (p0 :: ps) edges).1 with hV
+  set M := markAll cfg res (p0 :: ps) edges with hM
+  have hnumI : V.numInter = M.numInter := by
+    have hvox : voxelize cfg res (p0 :: ps) edges =
+      if M.panic then (M, true) else ({ M with vals := (fill cfg M.ni M.nj M.vals).1 }, (fill cfg M.ni M.nj M.vals).2) := rfl
+    rw [hV, hvox, if_neg (by rw [v1]; simp)]
+  intro w hw hws
+  have key := toVoxelSet_map V hne (by rw [hnumI, v3, v4]; exact hn.size)
+    (by intro id; rw [hnumI, v7]; exact hn.cnt id)
+    (by
+      intro pr hpr
+      rw [v7] at hpr
+      obtain ⟨c, hc, e, hs⟩ := hn.surf pr hpr
+      refine ⟨c, by rw [v3, v4]; exact hc, by rw [v3]; exact e, ?_⟩
+      rw [v3]; exact (v8 c hc).mpr hs)
+    w hw hws
+  rw [key, vox_map_exact cfg hsi res hres p0 ps edges hp, hkeep]
+  -- the cell of `w` is inside the grid
+  have hwin : InB V.ni V.nj (w.i, w.j) := by
+    have h1 : ((w.i, w.j), w.surf) ∈ (toVoxelSet V).1.toList.map (fun w => ((w.i, w.j), w.surf)) :=
+      List.mem_map.mpr ⟨w, hw, rfl⟩
+    rw [toVoxelSet_voxels] at h1
+    obtain ⟨c, hc, e⟩ := List.mem_filterMap.mp h1
+    have hcin := mem_cellsIn.mp hc
+    have : c = (w.i, w.j) := by
+      unfold classify at e
+      split_ifs at e <;> simp at e <;> exact e.1
+    rw [← this]; exact ⟨hcin.1.2, hcin.2.2⟩
+  exact flatMap_filter_hits _ _ _ _ _ (w.i, w.j) hwin _
 
 end generic
 
